@@ -139,14 +139,46 @@ Example init_live_run :
   /\ option_map (fun b => (log b, unsubd b)) (cbs s 0) = Some ([(0, 1); (1, 2); (2, 7)]%N, false).
 Proof. vm_compute. repeat split. Qed.
 
-(* Finding reactive-set-decode-silent: Decode on a set that has a subscriber is a silent change.  {0,1} with one
+(* ---- Set: schedules over the exported mutators (Apply, Compute, Replace, Decode after fix a05beeb) ---- *)
+Notation sarun s0 sch := (s_run (sapi_sch sch) (init N (N * N) sop (N * N) s0)).
+Lemma set_api_log_shape s0 (sch : list (nat * option (op scall))) c b :
+  let s := sarun s0 sch in
+  cbs s c = Some b ->
+  log b = initpart N (N * N) s_initD b ++ firstn (ndel b) (skipn (regat b) (hist s))
+  /\ regat b + ndel b <= length (hist s)
+  /\ initv b = fold_left s_apply (firstn (regat b) (hist s)) s0
+  /\ val s = fold_left s_apply (hist s) s0
+  /\ (returned b = true -> gotinit b = false -> initv b = 0%N).
+Proof. apply set_log_shape. Qed.
+Lemma set_api_fold s0 (sch : list (nat * option (op scall))) c b :
+  let s := sarun s0 sch in
+  quiescent _ _ _ _ s -> cbs s c = Some b -> unsubd b = false ->
+  returned b = true /\ regat b + ndel b = length (hist s)
+  /\ log b = initpart N (N * N) s_initD b ++ skipn (regat b) (hist s)
+  /\ fold_log N (N * N) s_apply 0%N (log b) = val s.
+Proof. apply set_fold. Qed.
+Lemma set_api_true_diff s0 (sch : list (nat * option (op scall))) :
+  chain N (N * N) s_apply s_legal_p s0 (hist (sarun s0 sch)).
+Proof. apply set_chain. Qed.
+
+(* the witness schedule of the pinned defect, with Decode as it is now: the subscriber is told *)
+Definition decode_fixed_schedule : list (nat * option (op scall)) :=
+  [(0, Some (Subscribe 0 false)); (0, None); (0, None); (0, None); (0, None);
+   (1, Some (Write (KDecode 6%N))); (1, None); (1, None); (1, None); (1, None); (1, None); (1, None)].
+Example decode_fixed_run :
+  let s := sarun 3%N decode_fixed_schedule in
+  thr s 0 = Idle /\ thr s 1 = Idle /\ val s = 7%N /\ hist s = [(4, 0)]%N
+  /\ option_map (fun b => (log b, fold_log N (N * N) s_apply 0%N (log b), unsubd b)) (cbs s 0) = Some ([(3, 0); (4, 0)]%N, 7%N, false).
+Proof. vm_compute. repeat split. Qed.
+
+(* The pinned Decode (before fix a05beeb) on a set that has a subscriber was a silent change.  {0,1} with one
    subscriber (registered, initial callback delivered, OnUpdate returned), then Decode of {1,2}: nobody runs, the
    contents are {0,1,2}, the subscriber's fold is still {0,1}. *)
 Definition decode_live_schedule : list (nat * option (op sop)) :=
   [(0, Some (Subscribe 0 false)); (0, None); (0, None); (0, None); (0, None)].
-Lemma refuted_set_decode_live :
+Lemma refuted_set_decode_pinned :
   let s := s_run decode_live_schedule (init N (N * N) sop (N * N) 3%N) in
-  exists s', decode_step s 6%N = Some s'
+  exists s', decode_step_pinned s 6%N = Some s'
     /\ (forall t, t < 4 -> thr s' t = Idle) /\ val s' = 7%N
     /\ option_map (fun b => (fold_log N (N * N) s_apply 0%N (log b), unsubd b, returned b)) (cbs s' 0) = Some (3%N, false, true).
 Proof.
